@@ -226,6 +226,21 @@ def run(ctx, rep):
     for key, v in sorted(snap.viol.items()):
         if v['rule'] in ('C04.O7', 'C02.5'):
             rep.violation('C10.4', key, v['where'], v['msg'], {'path': v['chain']})
+    # C10.5: the copy-on-write decision is taken on the entry read under the L2 slice write guard
+    from ..critsec import check_then_act
+    rep.rule('C10.5', 'copy-on-write routines decide on the L2 entry read through the slice write guard after acquiring it')
+    ncta = 0
+    for (fn, where, mname, ok, why) in check_then_act(f, P):
+        if 'cow' not in fn.lower():
+            continue
+        ncta += 1
+        rep.ob('C10.5', '%s: %s at %s' % (fn, mname, where), ok, why)
+        if not ok:
+            rep.violation('C10.5', 'C10.5:%s:%s' % (fn, mname), where,
+                          '%s performs %s under the L2 slice write guard on a decision taken before the guard was acquired: a writer '
+                          'that queued behind another copy-on-write of the same cluster repeats it from the old source and loses the '
+                          'first write (%s)' % (fn, mname, why))
+    rep.floor('guarded mutations in copy-on-write routines', ncta, 2)
     ncow = 0
     from .c06 import cow_merge_fns
     merges = set(cow_merge_fns(f))
